@@ -35,12 +35,15 @@ def iterFrom {V} (items : List (Bytes × V)) (start : Bytes) (reverse : Bool) : 
     | [_] => .panic "getIterator: itr.Key() on exhausted iterator"
     | _ :: e2 :: _ => .ok (items.filter (fun e => Bytes.lt e.1 e2.1)).reverse
 
+/-- key of the `i`-th entry, `[]` (no `next_key`) when there is none -/
+def keyAt {V} (l : List (Bytes × V)) (i : Nat) : Bytes := match l[i]? with | some e => e.1 | none => []
+
 /-- The key branch of `Paginate` (`len(key) != 0`): `limit` entries from the iterator, `next_key` = key of
 the following one. -/
 def pageByKey {V} (items : List (Bytes × V)) (key : Bytes) (reverse : Bool) (limit : Nat) :
     Outcome (List (Bytes × V) × PageResponse) :=
   match iterFrom items key reverse with
-  | .ok it => .ok (it.take limit, { nextKey := match it[limit]? with | some e => e.1 | none => [], total := 0 })
+  | .ok it => .ok (it.take limit, { nextKey := keyAt it limit, total := 0 })
   | .err c => .err c
   | .panic s => .panic s
 
@@ -54,7 +57,7 @@ def pageByOffset {V} (items : List (Bytes × V)) (offset limit : Nat) (countTota
     let res := (it.drop offset).take (endp - offset)
     let next : Bytes :=
       if endp + 1 < 18446744073709551616 ∧ offset < endp + 1 then
-        match it[endp]? with | some e => e.1 | none => []
+        keyAt it endp
       else []
     .ok (res, { nextKey := next, total := if countTotal then it.length else 0 })
   | .err c => .err c
